@@ -466,7 +466,7 @@ func extErrorsIs(fr *frame, a []value) value {
 			}
 		}
 		// Unwrap() error
-		m := i.prog.LookupMethod(err.t, nil, "Unwrap")
+		m := findMethod(i, err.t, "Unwrap")
 		if m == nil || m.Signature.Results().Len() != 1 {
 			return false
 		}
@@ -513,7 +513,7 @@ func nativeArg(fr *frame, a value) interface{} {
 			return nil
 		}
 		for _, name := range []string{"Error", "String"} {
-			if m := fr.i.prog.LookupMethod(a.t, nil, name); m != nil && m.Signature.Params().Len() == 0 && m.Signature.Results().Len() == 1 {
+			if m := findMethod(fr.i, a.t, name); m != nil && m.Signature.Params().Len() == 0 && m.Signature.Results().Len() == 1 {
 				recv := a.v
 				return fmtArg{str: func() string {
 					r := call(fr.i, fr, token.NoPos, m, []value{recv})
@@ -578,7 +578,7 @@ func writeTo(fr *frame, w value, s value) value {
 	if it.t == nil {
 		panic(targetPanic{"invalid memory address or nil pointer dereference (nil io.Writer)"})
 	}
-	m := fr.i.prog.LookupMethod(it.t, nil, "Write")
+	m := findMethod(fr.i, it.t, "Write")
 	if m == nil {
 		unsupported("io.Writer without Write method: %v", it.t)
 	}
